@@ -50,8 +50,10 @@ theorem verifySig_trace (env : Env) (k : KeyItem) (a : Alg) (msg s : Bytes) :
        · rename_i hg
          split at hc
          · simp at hc
-         · simp only [List.mem_singleton] at hc
-           exact ⟨Or.inr hc, ((checkKeyBits_none_iff _ k).1 hg).2⟩)
+         · split at hc
+           · simp at hc
+           · simp only [List.mem_singleton] at hc
+             exact ⟨Or.inr hc, ((checkKeyBits_none_iff _ k).1 hg).2⟩)
 
 theorem judge_trace (env : Env) (cl : ClaimCfg) (p : Parsed) (cfg : Config) :
     ∀ c ∈ (judge env cl p cfg).2, ∃ k, cfg.key = some k ∧
@@ -69,7 +71,7 @@ theorem judge_trace (env : Env) (cl : ClaimCfg) (p : Parsed) (cfg : Config) :
         · split at hc
           · simp at hc
           · rename_i k hk
-            have := verifySig_trace env k p.alg (p.head ++ [46] ++ p.payload) p.sig c
+            have := verifySig_trace env k p.alg (signingInput p.head p.payload) p.sig c
             split at hc <;> rename_i hv <;> simp only [hv] at this <;> exact ⟨k, hk, this hc⟩
 
 theorem verifyCore_trace (env : Env) (c : CheckerCfg) (tok : Bytes) :
